@@ -136,6 +136,21 @@ class Repo:
                     self.modules[name] = Module(name, path, rel, text)
                 except SyntaxError as e:
                     raise AnchorError('syntax error in %s: %s' % (rel, e))
+        # files that exist only in the overrides (a change under analysis that adds a module)
+        for rel, text in sorted(self.overrides.items()):
+            if not rel.endswith('.py') or not rel.startswith(package + '/'):
+                continue
+            parts = rel[:-3].split('/')
+            if 'tests' in parts:
+                continue
+            if parts[-1] == '__init__':
+                parts = parts[:-1]
+            name = '.'.join(parts)
+            if name not in self.modules:
+                try:
+                    self.modules[name] = Module(name, os.path.join(self.root, rel), rel, text)
+                except SyntaxError as e:
+                    raise AnchorError('syntax error in %s: %s' % (rel, e))
         self._index()
 
     # ------------------------------------------------------------------
